@@ -40,12 +40,12 @@ type victimPlan struct {
 }
 
 type c06run struct {
-	res     *report.Result
-	d       *delivery
-	victims sync.Map // id -> *victimPlan
-	enter   atomic.Int64
-	exit    atomic.Int64
-	matrix  sync.Map // "ending/peerK" -> *atomic.Int64
+	res          *report.Result
+	d            *delivery
+	victims      sync.Map // id -> *victimPlan
+	enter        atomic.Int64
+	exit         atomic.Int64
+	matrix       sync.Map // "ending/peerK" -> *atomic.Int64
 	callerPanics atomic.Int64
 }
 
